@@ -26,7 +26,7 @@ def main():
   a = ap.parse_args()
   src = f"/tmp/wt_out/{a.pid}/{a.k}"
   kept = os.path.join(VERIF, "seeded", f"{a.pid}-{a.k}")
-  if not os.path.exists(os.path.join(src, "patch.diff")): src = kept
+  if os.path.exists(os.path.join(kept, "patch.diff")) or not os.path.exists(os.path.join(src, "patch.diff")): src = kept
   meta = json.load(open(os.path.join(src, "meta.json"))) if os.path.exists(os.path.join(src, "meta.json")) else {}
   d = tempfile.mkdtemp(prefix="seed_")
   repo = os.path.join(d, "repo")
@@ -68,6 +68,11 @@ def main():
         res["tests_ok"] = not missing
       except Exception as ex:
         res["tests_ok"] = False; res["tests_error"] = str(ex)
+    elif meta.get("verified", {}).get("tests_ok") is not None:
+      # the test-suite result of the last full evaluation of this same patch is carried over
+      res["tests_ok"] = meta["verified"]["tests_ok"]
+      res["baseline_tests_now_failing"] = meta["verified"].get("baseline_tests_now_failing", [])
+      res["tests_carried_over"] = True
     checks = {}
     for pid in [a.pid] + [x for x in a.also.split(",") if x]:
       env2 = dict(os.environ); env2["VERIF_REPO"] = repo
@@ -78,7 +83,7 @@ def main():
       sh(f"rm -f {VERIF}/replays/{pid}/found_*.json")
     res["checks"] = checks
     res["confirmed"] = bool(res.get("demo_unchanged_exit") == 0 and res.get("patch_applies") and res.get("demo_patched_exit") != 0
-                            and (a.skip_tests or res.get("tests_ok")))
+                            and bool(res.get("tests_ok")))
     res["caught_by"] = [p for p, c in checks.items() if c["exit"] == 1]
     print(json.dumps(res, indent=1))
     if a.keep and res["confirmed"]:
